@@ -284,6 +284,8 @@ func (root *Root) addExtends(extends ...*Extend) (err error) {
 				cur = root.dirs.get(x.Adds.Name())
 			}
 		} else if schema, _ := x.Adds.(*Schema); schema != nil {
+			// Extending the implicit schema, make sure there is one.
+			root.assureSchema()
 			cur = root.schema
 		}
 		if cur == nil {
